@@ -1408,25 +1408,53 @@ def summary(c, ids, names):
 
 
 def stage_order(cs, parts, c, names, order, rng):
-    """Another input order of the same parts gives the same data set."""
+    """Another input order of the same parts gives the same data set - also (every second time) when the parts carry a
+    TIME selection of their own when they are handed to ConcatenatedDataSet: the constructor gives every part a slice
+    view of one global mask and applies the default selection; in particular the scan / compscan indices continue by the
+    number of scans a part HAS, not by those it had selected."""
+    from katdal.concatdata import ConcatenatedDataSet
     other = list(order)
     while other == order:
         rng.shuffle(other)
+    done = []
     with warnings.catch_warnings():
         warnings.simplefilter('ignore')
         try:
-            c2, _ = c19parts.open_concat(parts, other, False)
+            fresh = [parts[i].fresh() for i in other]
+            if rng.random() < 0.5:
+                for d in fresh:
+                    how = rng.choice(['none', 'scan0', 'dump0', 'compscan_last', 'target0', 'state'])
+                    try:
+                        if how == 'scan0':
+                            d.select(scans=0)
+                        elif how == 'dump0':
+                            d.select(dumps=[0])
+                        elif how == 'compscan_last':
+                            d.select(compscans=int(max(d.sensor.get('Observation/compscan_index').unique_values)))
+                        elif how == 'target0':
+                            d.select(targets=0)
+                        elif how == 'state':
+                            d.select(scans=str(d.sensor.get('Observation/scan_state').unique_values[-1]))
+                    except Exception:      # noqa: BLE001
+                        how = 'none'
+                    done.append(how)
+            c2 = ConcatenatedDataSet(fresh)
         except Exception as e:      # noqa: BLE001
-            cs.disagree('stage=order;what=raises', repr(e), 'opens', 'another input order of the same parts is refused', order2=other)
+            cs.disagree('stage=%s;what=raises' % ('preselect' if done else 'order'), repr(e), 'opens',
+                        'another input order of the same parts is refused', order2=other, preselect=done)
             return
         a, b = summary(c, cs.ids, names), summary(c2, cs.ids, names)
     bad = [k for k in a if a[k] != b[k]]
+    pre = any(h != 'none' for h in done)
     if bad:
-        cs.disagree('stage=order;what=differs:%s' % ','.join(sorted(x.split('/')[-1] for x in bad)),
+        cs.disagree('stage=%s;what=differs:%s' % ('preselect' if pre else 'order', ','.join(sorted(x.split('/')[-1] for x in bad))),
                     {k: a[k] if not isinstance(a[k], tuple) else a[k][0] for k in bad[:4]},
-                    None, 'the concatenation depends on the order of the input list',
-                    spec={k: b[k] if not isinstance(b[k], tuple) else b[k][0] for k in bad[:4]}, order2=other)
+                    None, 'the concatenation depends on the order of the input list' +
+                    (' or on the time selection the parts carried when they were concatenated' if pre else ''),
+                    spec={k: b[k] if not isinstance(b[k], tuple) else b[k][0] for k in bad[:4]}, order2=other, preselect=done)
     cs.ctx.count('order_permutations_compared')
+    if pre:
+        cs.ctx.count('preselected_parts_compared')
 
 
 def stage_scans(cs, ob, rng):
